@@ -120,6 +120,7 @@ def gen_case(rng, tier, small=None):
         dnf = nf + rng.choice([-4, -2, -1, 0, 1, 2, 5])
     dnf = max(-8, min(dnw + 8, dnf))
     ds = rng.random() < 0.6
+    if rng.random() < 0.12: ds, dnw, dnf = s, nw, nf       # (a conversion into the SAME format: still a distinct object with a buffer of its own)
     if small is None and rng.random() < 0.12:
         # a source code whose rescaled value (code << shift) sits at the 63/64-bit machine boundary (it overflows the destination)
         nw = rng.randint(12, 52); nf = rng.randint(0, 8); s = rng.random() < 0.4
@@ -168,6 +169,16 @@ def run_cases(cases, res, stratum):
                 res.fail(c, 'C10: the source object was modified by a conversion (%s)' % st['route'], expected=before[:8], got=lib.codes_of(cur)[:8]); ok = False; break
             trail.append({'codes': lib.codes_of(d), 'shape': list(np.asarray(d.val).shape), 'dtype': d.dtype, 'status': lib.status3(d),
                           'fmt': (bool(d.signed), int(d.n_word), int(d.n_frac)), 'getval': lib.vals_of(d.get_val()), 'call': lib.vals_of(d())})
+            if np.asarray(d.val).ndim > 0 and np.asarray(d.val).size > 0 and st['route'] not in ('setitem', 'setitem_resized') and (len(before) + st['dnw']) % 3 == 0:
+                # the destination is an object of its own: an element written into a second result of the same conversion does not show in the source
+                try:
+                    d2 = convert(fx, np, cur, st['route'], st['ds'], st['dnw'], st['dnf'], st['r'], st['o'])
+                    lo_, hi_ = S.fmt_bounds(st['ds'], st['dnw']); c0 = lib.codes_of(d2)[0]
+                    d2[(0,) * np.asarray(d2.val).ndim] = fx.Fxp(0 if c0 != 0 else (1 if hi_ >= 1 else lo_), st['ds'], st['dnw'], st['dnf'], raw=True)
+                except Exception as e:
+                    res.fail(c, 'C10: an element write into the result of a conversion (%s) raised %s' % (st['route'], lib.exc_name(e)), got=str(e)[:200]); ok = False; break
+                if lib.codes_of(cur) != before:
+                    res.fail(c, 'C10: the result of a conversion (%s) shares its value buffer with the source: an element written into it changed the source' % st['route'], expected=before[:8], got=lib.codes_of(cur)[:8]); ok = False; break
             cur = d
         if ok: pend.append((c, trail))
     # Spec: sequential quantization of the exact values
